@@ -164,3 +164,14 @@ PROPS["C03"] = _mm("C03", gens.gen_c03, "memmem::find and Finder::find x {Auto, 
 PROPS["C04"] = _mm("C04", gens.gen_c04, "memmem::rfind and FinderRev::rfind", "rev")
 PROPS["C10"] = _mm("C10", gens.gen_c10, "every (needle, haystack) under all configurations (prefilter Auto/None x 5 rankers + seeded tables x 3 CPUs), answers compared across configurations", "fwd")
 PROPS["C10"]["oracle"] = gens.oracle_c10
+
+PROPS["C08"] = dict(
+    id="C08", coq_files=MEM_PROOF_FILES + ["Mem/IterProofs.v"] + ALL_SUB_PROOFS + ["Sub/FindIterProofs.v", "Props/C08.v"],
+    gen=gens.gen_c08, oracle=gens.oracle_c08, nontrivial=gens.nontrivial_c08, shrink_fields=["h"],
+    builds=["debug", "release"], cert="both",
+    rule="find_iter (size_hint before every call) and rfind_iter driven past the end (matches + 3 calls) and to the middle: self-overlapping needles "
+         "(aa, aba, abab, abcabc) in repetitive haystacks, the empty needle on haystacks of 0..100 bytes, long needles whose haystack first drives "
+         "the adaptive prefilter inert and then contains matches, packed-pair-range needles, plus a sample of the C03 families; prefilter Auto/None, "
+         "5 rankers, 3 CPUs; non-trivial = haystack >= 4 bytes",
+    assumptions=SUB_ASSUME + TIER1, trusted=SUB_TRUSTED,
+)
